@@ -110,13 +110,13 @@ pub fn plans(ctx: &WorkerCtx) -> Vec<Plan> {
     let base = Opts { n32: 2, n64: 2, ..Default::default() };
     let mut v = vec![];
     let af = || -> Box<dyn Fn(&Cfg) -> Alphabet + Sync> { Box::new(|c: &Cfg| alphabet(c.machines.len())) };
-    v.push(Plan { name: "one padder x framework fraction".into(), cfgs: fam::singles(&pads, &fw), alpha_for: af(), opts: Opts { depth: if q { 6 } else { 9 }, ..base.clone() }, walk: None });
+    v.push(Plan { name: "one padder x framework fraction".into(), cfgs: fam::singles(&pads, &fw), alpha_for: af(), opts: Opts { depth: if q { 10 } else { 12 }, ..base.clone() }, walk: None });
     // padder next to a machine that only *reports* padding (moves the global fraction)
     let reporter = vec![("noop".to_string(), fam::noop())];
     let mut two = fam::all_pairs(&pads, &reporter, &fw);
     let sub: Vec<_> = pads.iter().filter(|(n, _)| q && !n.contains("frac0.25") || !q).cloned().collect();
     two.extend(fam::all_pairs(&sub, &sub, if q { &fw[2..3] } else { &fw }));
-    v.push(Plan { name: "padder + reporter, all padder pairs".into(), cfgs: two, alpha_for: af(), opts: Opts { depth: if q { 5 } else { 7 }, ..base.clone() }, walk: None });
+    v.push(Plan { name: "padder + reporter, all padder pairs".into(), cfgs: two, alpha_for: af(), opts: Opts { depth: if q { 8 } else { 9 }, ..base.clone() }, walk: None });
     let k0: Vec<_> = pads.iter().filter(|(n, _)| n.contains("k0") && !n.contains("frac0.25")).cloned().collect();
     let mut three = vec![];
     for (i, (na, a)) in k0.iter().enumerate() {
@@ -127,10 +127,23 @@ pub fn plans(ctx: &WorkerCtx) -> Vec<Plan> {
             }
         }
     }
-    v.push(Plan { name: "three padders".into(), cfgs: three, alpha_for: af(), opts: Opts { depth: if q { 4 } else { 6 }, ..base.clone() }, walk: None });
+    v.push(Plan { name: "three padders".into(), cfgs: three, alpha_for: af(), opts: Opts { depth: if q { 7 } else { 8 }, ..base.clone() }, walk: None });
+    // fractions that are not dyadic: the count ratio can equal the limit exactly in f64 (5/6, 7/10, 9/10, 1/3) and any
+    // narrower or differently rounded arithmetic decides the other way at that point
+    let mut nd = vec![];
+    let ndf = [("1/3", 1.0 / 3.0), ("5/6", 5.0 / 6.0), ("0.7", 0.7), ("0.9", 0.9)];
+    for kind in 0..3 {
+        for allowed in [0u64, 1, 3] {
+            nd.extend(fam::singles(&[(format!("padder[k{kind},allowed{allowed},frac1]"), fam::padder(kind, allowed, 1.0))], &ndf.map(|(_, f)| (f, 0.0))));
+            for (fname, frac) in ndf {
+                nd.extend(fam::singles(&[(format!("padder[k{kind},allowed{allowed},frac{fname}]"), fam::padder(kind, allowed, frac))], &[(0.0, 0.0)]));
+            }
+        }
+    }
+    v.push(Plan { name: "non-dyadic own and framework fractions (1/3, 5/6, 0.7, 0.9): ratio exactly at the limit".into(), cfgs: nd, alpha_for: af(), opts: Opts { depth: if q { 12 } else { 14 }, ..base.clone() }, walk: None });
     // general machines (G2 with padding actions) under framework fractions
     let g2: Vec<_> = fam::g2(if q { 1999 } else { 199 }, 5).into_iter().filter(|(_, m)| format!("{:?}", m).contains("SendPadding")).collect();
-    v.push(Plan { name: "G2 machines with padding actions, pairs".into(), cfgs: fam::pairs_strided(&g2, 31, 7, &[(0.5, 0.0), (0.25, 0.0), (1.0, 0.0)]), alpha_for: Box::new(|c: &Cfg| Alphabet { batches: all_single_events(c.machines.len(), false).into_iter().map(|e| vec![e]).collect(), deltas: vec![0] }), opts: Opts { depth: if q { 3 } else { 4 }, ..base.clone() }, walk: None });
+    v.push(Plan { name: "G2 machines with padding actions, pairs".into(), cfgs: fam::pairs_strided(&g2, 31, 7, &[(0.5, 0.0), (0.25, 0.0), (1.0, 0.0)]), alpha_for: Box::new(|c: &Cfg| Alphabet { batches: all_single_events(c.machines.len(), false).into_iter().map(|e| vec![e]).collect(), deltas: vec![0] }), opts: Opts { depth: if q { 4 } else { 5 }, ..base.clone() }, walk: None });
     // fractions at the very bottom of the valid range are set limits like any other
     let mut tiny = vec![];
     for kind in 0..3 {
@@ -143,7 +156,7 @@ pub fn plans(ctx: &WorkerCtx) -> Vec<Plan> {
     let mut tcfgs = fam::singles(&tiny, &[(0.0, 0.0), (1.0, 0.0)]);
     tcfgs.extend(fam::singles(&pads.iter().filter(|(n, _)| n.contains("frac0,") || n.contains("frac0]") || n.contains("frac1")).cloned().collect::<Vec<_>>(), &[(5e-324, 0.0), (f64::EPSILON, 0.0)]));
     tcfgs.extend(fam::all_pairs(&tiny, &reporter, &[(0.0, 0.0)]));
-    v.push(Plan { name: "own and framework fractions at the bottom of the valid range (5e-324 .. f64::EPSILON)".into(), cfgs: tcfgs, alpha_for: af(), opts: Opts { depth: if q { 5 } else { 7 }, ..base.clone() }, walk: None });
+    v.push(Plan { name: "own and framework fractions at the bottom of the valid range (5e-324 .. f64::EPSILON)".into(), cfgs: tcfgs, alpha_for: af(), opts: Opts { depth: if q { 8 } else { 9 }, ..base.clone() }, walk: None });
     v
 }
 
